@@ -17,6 +17,8 @@ DECIDED = ('(a) the scanner terminates: on every path round the outer loop the c
            'latin1.')
 DECIDED_MORE = ('Also: separators are searched in still-escaped text; the promoted list is kept under the key.')
 DECIDED = DECIDED + ' ' + DECIDED_MORE
+DECIDED_R6 = ('Round 6: every memo key of the parsed query is dropped by the QUERY_STRING listener; a field is skipped only for an empty name; split/partition form of the scanner; operations in neither catalogue are undecided.')
+DECIDED = DECIDED + ' ' + DECIDED_R6
 NOT_DECIDED = ('encode -> parse equality for all pair lists (urllib.parse.unquote semantics); UTF-8 decoding of escapes is '
                'urllib behaviour.')
 ASSUMPTIONS = ["urllib.parse.unquote(s) with default errors='replace' raises nothing",
